@@ -17,6 +17,10 @@ ASSUMPTIONS = [
 ]
 
 PROPS = {
+    'C06': dict(
+        units=['nint'],
+        not_covered='lazy_is_prime / lazy_factorize / even / odd; literal parsing',
+    ),
     'C10': dict(
         units=['index'],
         not_covered='index/slice_seq/set_index and the take/drop/... builtins that call these kernels; stream indexing by iteration',
